@@ -322,7 +322,7 @@ def subexprs(e):
         return [], []
     if k == "idx":
         return [e[1]], [e[2]]
-    if k == "slice":
+    if k in ("slice", "idx2"):
         return [e[1]], [e[2], e[3]]
     if k == "bin":
         return [], [e[2], e[3]]
@@ -344,12 +344,15 @@ def uses(e):
 
 
 def has_access(e):
-    if e[0] in ("idx", "slice"):
+    if e[0] in ("idx", "slice", "idx2"):
         return True
     return any(has_access(x) for x in subexprs(e)[1])
 
 
 def fields(e, acc):
+    if e[0] == "isnotnone" and e[1][0] == "field":
+        acc.add((e[1][1], e[1][2] + "_is_some"))
+        return
     if e[0] == "field":
         acc.add((e[1], e[2]))
     for x in subexprs(e)[1]:
@@ -372,7 +375,9 @@ def stmt_exprs(s):
     if k == "assert":
         return [s["c"]]
     if k == "assign":
-        return [s["lhs"], s["e"]] if s["lhs"][0] == "idx" else [s["e"]]
+        return [s["lhs"], s["e"]] if s["lhs"][0] != "var" else [s["e"]]
+    if k == "retstate":
+        return [("var", v) for v in s["vars"]]
     if k == "if":
         return [s["c"]]
     if k == "for":
@@ -400,7 +405,7 @@ def touches_ok(stmts):
         for e in stmt_exprs(s):
             if has_access(e):
                 return True
-        if s["k"] == "assign" and s["lhs"][0] == "idx":
+        if s["k"] == "assign" and s["lhs"][0] != "var":
             return True
         if s["k"] == "assert":
             return True
@@ -437,7 +442,7 @@ def always_exits(stmts):
     if not stmts:
         return False
     s = stmts[-1]
-    if s["k"] in ("break", "continue", "return"):
+    if s["k"] in ("break", "continue", "return", "retstate"):
         return True
     if s["k"] == "if":
         return always_exits(s["a"]) and always_exits(s["b"])
@@ -498,6 +503,8 @@ def live_block(stmts, out, ctx, ann):
             live = set(ctx[1])
         elif k == "return":
             live = uses(s["e"]) | {"ok"}
+        elif k == "retstate":
+            live = set(s["vars"]) | {"ok"}
         else:
             raise TranslateError("liveness: %s" % k)
     return live
@@ -709,9 +716,16 @@ class Emitter:
         raise TranslateError("expression %r" % (e,))
 
     cost_min_ok = False
+    ret_type = "cret * bool"
 
     def ex_extra(self, e, want):
         return None
+
+    def store_extra(self, lhs, e):
+        raise TranslateError("%s: store into %r" % (self.fname, lhs))
+
+    def len_vars_extra(self, e, acc):
+        pass
 
     def okline(self, obl):
         return "".join("let ok := ok && inb %s %s in\n" % (n, i) for n, i in obl)
@@ -758,6 +772,9 @@ class Emitter:
                 t, _, obl = self.ex(s["e"], self.types[v])
                 return self.okline(obl) + "let %s := %s in\n" % (v, t) + go(defined | {v})
             a = s["lhs"][1]
+            if s["lhs"][0] != "idx":
+                self.check_defined(uses(s["lhs"]) | uses(s["e"]), defined, s)
+                return self.store_extra(s["lhs"], s["e"]) + go(defined)
             if self.types.get(a) != "arr":
                 raise TranslateError("%s: store into %s" % (self.fname, a))
             self.check_defined(uses(s["lhs"]) | uses(s["e"]), defined, s)
@@ -834,6 +851,11 @@ class Emitter:
             if ctx is None:
                 raise TranslateError("continue outside a loop")
             return ctx["cont"](defined)
+        if kind == "retstate":
+            if ctx is not None:
+                raise TranslateError("%s: cut inside a loop" % self.fname)
+            self.check_defined(set(s["vars"]), defined, s)
+            return "(Some %s, ok)" % self.tuple_of(list(s["vars"]))
         if kind == "return":
             if ctx is not None:
                 raise TranslateError("%s: return inside a loop" % self.fname)
@@ -907,6 +929,8 @@ class Emitter:
                 self.collect_len_vars(e, extra)
             if t["k"] == "assign" and t["lhs"][0] == "idx":
                 extra.add(t["lhs"][1] + "_len")
+            if t["k"] == "assign" and t["lhs"][0] not in ("idx", "var"):
+                self.len_vars_extra(t["lhs"], extra)
         for x in extra:
             if x not in carried and x != v and x not in env:
                 env.append(x)
@@ -930,6 +954,8 @@ class Emitter:
                 acc.add(e[1] + "_len")
             elif ty == "in":
                 acc |= uses(self.in_bounds[e[1]])
+        else:
+            self.len_vars_extra(e, acc)
         for x in subexprs(e)[1]:
             self.collect_len_vars(x, acc)
 
@@ -944,7 +970,7 @@ class Emitter:
                  [("junk_" + a, "Z -> cost") for a in allocs] + \
                  [(n, COQTY[ty]) for ty, n in self.params if ty != "settings"] + \
                  [(self.fld(f), COQTY[self.struct_fields[f]]) for f in sorted(self.used_fields)]
-        self.defs.append(("c_" + self.fname, params, "cret * bool", "let ok := true in\n" + body))
+        self.defs.append(("c_" + self.fname, params, self.ret_type, "let ok := true in\n" + body))
         return self.defs
 
 
